@@ -769,20 +769,23 @@ def splitDot : List Char → List Char × Option (List Char)
   | [] => ([], none)
   | c :: r => if c = '.' then ([], some r) else let (a, b) := splitDot r; (c :: a, b)
 
-/-- `GlueRatio::from_float_str` = `Scaled::parse_from_string(s ++ "pt")`, with fix C18-a
-(a fraction character that is not a decimal digit is an error, not an arithmetic overflow). -/
+/-- `GlueRatio::from_float_str` = `Scaled::parse_from_string(s ++ "pt")`: a leading `-` applies
+to the whole number (C06-h); with fix C18-d a fraction character that is not a decimal digit is
+an error, not an arithmetic overflow. -/
+def parseRatioAbs (s : Str) : Option Int :=
+  let (ip, fr) := splitDot s
+  match parseI32 ip with
+  | none => none
+  | some n =>
+    let fs := fr.getD []
+    match scanFrac fs with
+    | (ds, []) => scaledNew n ((ds.foldr (fun d a => (a + d * 131072) / 10) 0 + 1) / 2) 1 1 false
+    | _ => none
+
 def parseRatio (s : Str) : Option Int :=
   match s with
   | [] => none
-  | _ :: _ =>
-    let (ip, fr) := splitDot s
-    match parseI32 ip with
-    | none => none
-    | some n =>
-      let fs := fr.getD []
-      match scanFrac fs with
-      | (ds, []) => scaledNew n ((ds.foldr (fun d a => (a + d * 131072) / 10) 0 + 1) / 2) 1 1 false
-      | _ => none
+  | c :: r => if c = '-' then (parseRatioAbs r).map (fun v => -v) else parseRatioAbs (c :: r)
 
 def getRatio (r : List (Field × Val)) (f : Field) : Option Int :=
   match getStr r f with
